@@ -1725,6 +1725,35 @@ func (a *fnAnalysis) call(st *rstate, x *ssa.Call) {
 			if !ok {
 				v, ok = a.e.retOverride[cname]
 			}
+			if !ok && isLocalHelper(callee) {
+				// a helper or function literal that only hands two dates to Subtract: the same reasoning at its call site
+				if rv, av := subtractDelegation(callee); rv != nil {
+					subst := map[*ssa.Parameter]string{}
+					for i, p := range callee.Params {
+						if i < len(common.Args) {
+							if d := dateDesc(common.Args[i], nil, 0); d != "" {
+								subst[p] = d
+							}
+						}
+					}
+					// each date as the caller's own value when it is a parameter of the helper, else by its description
+					side := func(v ssa.Value) (ssa.Value, string) {
+						if p, isP := v.(*ssa.Parameter); isP {
+							if i := paramIndex(callee, p); i >= 0 && i < len(common.Args) {
+								return common.Args[i], ""
+							}
+						}
+						return nil, dateDesc(v, subst, 0)
+					}
+					rVal, rd := side(rv)
+					aVal, ad := side(av)
+					if (rVal != nil || rd != "") && (aVal != nil || ad != "") {
+						if lo, hi, known := orderedDateDiffD(a.fn, x.Block(), rVal, aVal, rd, ad); known {
+							v, ok = rangeVal(lo, hi).withAx(axBit("AX-DATEDIFF")), true
+						}
+					}
+				}
+			}
 			if !ok && cname == "calendar.(*Solar).Subtract" && len(common.Args) == 2 {
 				// the day difference of two dates whose order is known from a dominating comparison
 				// of their fixed-width renderings (or IsBefore/IsAfter): its sign follows that order
@@ -2373,8 +2402,68 @@ func isSearchHelper(fn *ssa.Function) bool {
 }
 
 // sameObject: do two SSA values name the same object (the same value, or loads of the same field of the same object)?
+// dateDesc: a canonical description of where an object comes from — a parameter, a field path below one,
+// seen through variables that live in cells (a captured variable of a function literal is the cell its
+// maker bound); "" when the value is not of that shape. subst gives the description of a callee's
+// parameters at a call site.
+func dateDesc(v ssa.Value, subst map[*ssa.Parameter]string, depth int) string {
+	if depth > 8 {
+		return ""
+	}
+	switch x := v.(type) {
+	case *ssa.Parameter:
+		if d, ok := subst[x]; ok {
+			return d
+		}
+		if x.Parent() != nil {
+			return "P:" + x.Parent().String() + ":" + x.Name()
+		}
+	case *ssa.UnOp:
+		if x.Op != token.MUL {
+			return ""
+		}
+		switch addr := x.X.(type) {
+		case *ssa.FieldAddr:
+			if base := dateDesc(addr.X, subst, depth+1); base != "" {
+				return fmt.Sprintf("%s.#%d", base, addr.Field)
+			}
+		case *ssa.Alloc:
+			if !isAggregate(addr) {
+				if sv := soleStoredValue(addr); sv != nil {
+					return dateDesc(sv, subst, depth+1)
+				}
+			}
+		case *ssa.FreeVar:
+			fn := addr.Parent()
+			if fn == nil || fn.Parent() == nil {
+				return ""
+			}
+			for i, fv := range fn.FreeVars {
+				if fv != addr {
+					continue
+				}
+				for _, b := range fn.Parent().Blocks {
+					for _, ins := range b.Instrs {
+						if mc, ok := ins.(*ssa.MakeClosure); ok && mc.Fn == ssa.Value(fn) && i < len(mc.Bindings) {
+							if cell, ok := mc.Bindings[i].(*ssa.Alloc); ok && !isAggregate(cell) {
+								if sv := soleStoredValue(cell); sv != nil {
+									return dateDesc(sv, nil, depth+1)
+								}
+							}
+						}
+					}
+				}
+			}
+		}
+	}
+	return ""
+}
+
 func sameObject(a, b ssa.Value, depth int) bool {
 	if a == b {
+		return true
+	}
+	if da := dateDesc(a, nil, 0); da != "" && da == dateDesc(b, nil, 0) {
 		return true
 	}
 	if depth > 4 {
@@ -2393,6 +2482,28 @@ func sameObject(a, b ssa.Value, depth int) bool {
 // orderedDateDiff: bounds of recv.Subtract(arg) at block b of fn when a dominating branch fact orders the two dates:
 // a comparison of recv.ToYmd()/ToYmdHms() with arg's, or recv.IsBefore/IsAfter(arg).
 func orderedDateDiff(fn *ssa.Function, b *ssa.BasicBlock, recv, arg ssa.Value) (lo, hi int64, known bool) {
+	return orderedDateDiffD(fn, b, recv, arg, "", "")
+}
+
+// orderedDateDiffD: the two dates given as values of fn, or (when a value is nil) by their descriptions.
+func orderedDateDiffD(fn *ssa.Function, b *ssa.BasicBlock, recv, arg ssa.Value, recvDesc, argDesc string) (lo, hi int64, known bool) {
+	sameObject := func(x, y ssa.Value, depth int) bool {
+		// y is recv or arg
+		want := argDesc
+		if y == recv {
+			want = recvDesc
+		}
+		if y == nil || want != "" {
+			return want != "" && dateDesc(x, nil, 0) == want
+		}
+		return sameObject(x, y, depth)
+	}
+	if recv == nil {
+		recv = descMarker{true}
+	}
+	if arg == nil {
+		arg = descMarker{false}
+	}
 	rendered := func(v ssa.Value) (ssa.Value, string) {
 		call, ok := v.(*ssa.Call)
 		if !ok || call.Common().StaticCallee() == nil || !recvIsNamed(call.Common().StaticCallee(), "Solar") {
@@ -2468,6 +2579,32 @@ func orderedDateDiff(fn *ssa.Function, b *ssa.BasicBlock, recv, arg ssa.Value) (
 	}
 	return lo, hi, known
 }
+
+// subtractDelegation: fn is `return x.Subtract(y)` (one block): returns x and y as values of fn.
+func subtractDelegation(fn *ssa.Function) (recv, arg ssa.Value) {
+	if len(fn.Blocks) != 1 {
+		return nil, nil
+	}
+	ret, ok := fn.Blocks[0].Instrs[len(fn.Blocks[0].Instrs)-1].(*ssa.Return)
+	if !ok || len(ret.Results) != 1 {
+		return nil, nil
+	}
+	call, ok := ret.Results[0].(*ssa.Call)
+	if !ok || call.Common().StaticCallee() == nil || fname(call.Common().StaticCallee()) != "calendar.(*Solar).Subtract" || len(call.Common().Args) != 2 {
+		return nil, nil
+	}
+	return call.Common().Args[0], call.Common().Args[1]
+}
+
+// descMarker stands for a date known by its description only (never a real SSA value).
+type descMarker struct{ recv bool }
+
+func (descMarker) Name() string                  { return "desc" }
+func (descMarker) String() string                { return "desc" }
+func (descMarker) Type() types.Type              { return nil }
+func (descMarker) Parent() *ssa.Function         { return nil }
+func (descMarker) Referrers() *[]ssa.Instruction { return nil }
+func (descMarker) Pos() token.Pos                { return token.NoPos }
 
 func max64(a, b int64) int64 {
 	if a > b {
